@@ -65,7 +65,12 @@ def check_graph(vertices, succ):
     before = {v: set(s) for v, s in h.items()}
     try:
         one1 = toposort(h)
-        all1 = toposort_all(h)
+        all0 = toposort_all(h)
+        for o in all0:          # the caller consumes the first answer destructively ...
+            o.reverse()
+            if o:
+                o.pop()
+        all1 = toposort_all(h)  # ... and asks again
         one2 = toposort(h)
     except Exception as exc:
         return f"raised {type(exc).__name__}: {exc} on the second use of one graph object {g}", len(want)
